@@ -1,4 +1,4 @@
-import GomlVerif.Lemmas.GoCompRel
+import GomlVerif.Lemmas.GoCompVal
 /-! immediates (`ImmExpr`) evaluate to related, typed values on both sides, without effects -/
 set_option linter.unusedSimpArgs false
 set_option linter.unusedVariables false
@@ -16,8 +16,8 @@ theorem goTy_int (b : Nat) (s : Bool) : goTy (.int b s) = .int b s := by simp [g
 
 /-- an immediate of the fragment: its value at any positive fuel on the `Sem` side, its stable value
     on the Go side, related and of the annotated type -/
-theorem imm_both (env : Env) (P : Prog) (F : GFile) {Γ : Ctx} {ρ : Sem.Env} {gρ : GEnv} {i : Imm}
-    (hi : immOK Γ i = true) (hr : EnvRel env Γ ρ gρ) :
+theorem imm_both {env : Env} (P : Prog) {F : GFile} (ht : TyLink env F) {Γ : Ctx} {ρ : Sem.Env} {gρ : GEnv} {i : Imm}
+    (hi : immOK env Γ i = true) (hr : EnvRel env Γ ρ gρ) :
     ∃ v gv, (∀ n w, Sem.eval (n + 1) P ρ w i.toExpr = .ok v w) ∧
       (∀ gw, EvS F gρ gw (compileImm env i) (.ok gv gw)) ∧ toGV env v = some gv ∧ HasTy env v i.ty := by
   cases i with
@@ -55,7 +55,26 @@ theorem imm_both (env : Env) (P : Prog) (F : GFile) {Γ : Ctx} {ρ : Sem.Env} {g
       have := ev_int (F := F) (ρ := gρ) (w := gw) (b := b) (s := s) (toString_toInt v)
       rw [hw] at this; exact this
     | float b r => cases ty <;> simp [okPrim] at hi
-  | tag idx ty => simp [immOK] at hi
+  | tag idx ty =>
+    simp only [immOK] at hi
+    cases hv : variantOf env ty idx with
+    | none => rw [hv] at hi; simp at hi
+    | some v =>
+      obtain ⟨n, vname, tys⟩ := v
+      rw [hv] at hi; simp only [List.isEmpty_iff] at hi; subst hi
+      obtain ⟨rfl, hn, d, hd, hvar⟩ := variantOf_spec hv
+      refine ⟨.enumV n idx [], .struct (variantGoName env n vname) [], fun k w => ?_, fun gw => ?_, ?_, ?_⟩
+      · simp only [Imm.toExpr]; rw [Sem.eval]; rfl
+      · have hvt : variantTy env (.enum n) idx = .name (variantGoName env n vname) := by
+          simp [variantTy, lookupVariantName, Goml.Mono.constrName, hd, hvar, variantGoName]
+        simp only [compileImm, hvt]
+        have := ev_slit_name (F := F) (ρ := gρ) (w := gw) (name := variantGoName env n vname) evf_nil
+        have hs := slit_variant ht hn hd hvar (gvs := []) rfl
+        simp only [List.length_nil, fieldNames, List.zip_nil_left] at hs
+        rw [hs] at this; exact this
+      · simp [toGV, toGVs, hd, hvar, fieldNames]
+      · simp only [HasTy, hd, hvar, Imm.ty]
+        exact ⟨trivial, hn, trivial⟩
 
 /-- at any fuel the `Sem` side is out of fuel or gives that value -/
 theorem sem_imm_any {P : Prog} {ρ : Sem.Env} {w : World} {e : Expr} {v : Val}
@@ -71,8 +90,8 @@ def ArgsRel (env : Env) : List Val → List GVal → List Ty → Prop
   | v :: vs, g :: gs, t :: ts => toGV env v = some g ∧ HasTy env v t ∧ ArgsRel env vs gs ts
   | _, _, _ => False
 
-theorem imms_both (env : Env) (P : Prog) (F : GFile) {Γ : Ctx} {ρ : Sem.Env} {gρ : GEnv}
-    (hr : EnvRel env Γ ρ gρ) : ∀ {args : List Imm} {tys : List Ty}, argsOK Γ args tys = true →
+theorem imms_both {env : Env} (P : Prog) {F : GFile} (ht : TyLink env F) {Γ : Ctx} {ρ : Sem.Env} {gρ : GEnv}
+    (hr : EnvRel env Γ ρ gρ) : ∀ {args : List Imm} {tys : List Ty}, argsOK env Γ args tys = true →
     ∃ vs gvs, ArgsRel env vs gvs tys ∧ (∀ gw, EvLS F gρ gw (compileImms env args) (.ok gvs gw)) ∧
       (∀ n w, Sem.evalList n P ρ w (args.map Imm.toExpr) = .fail .fuel w ∨
               Sem.evalList n P ρ w (args.map Imm.toExpr) = .ok vs w) := by
@@ -94,7 +113,7 @@ theorem imms_both (env : Env) (P : Prog) (F : GFile) {Γ : Ctx} {ρ : Sem.Env} {
     | cons t ts =>
       simp only [argsOK, Bool.and_eq_true] at h
       obtain ⟨⟨ha, hta⟩, has⟩ := h
-      obtain ⟨v, gv, hs, hg, hrel, hty⟩ := imm_both env P F ha hr
+      obtain ⟨v, gv, hs, hg, hrel, hty⟩ := imm_both P ht ha hr
       obtain ⟨vs, gvs, hrs, hgs, hss⟩ := ih has
       have ht := scalarEq_eq hta
       refine ⟨v :: vs, gv :: gvs, ⟨hrel, ht ▸ hty, hrs⟩, fun gw => ?_, fun n w => ?_⟩
